@@ -415,3 +415,127 @@ pub fn run(ctx: &Ctx) -> i32 {
         assumptions: vec!["Fjord+ L1 cost (FastLZ size estimate) has no independent definition here: the amount paid is compared with the public cost function only".into(), "deposits carry gas price 0 (as the protocol builds them)".into()],
     })
 }
+
+// ------------------------------------------------------------------------------------------------
+// C22, Optimism clause (lane op): with rewards disabled neither the beneficiary nor any fee vault
+// is paid, everything else equals the run with rewards enabled, and the setting survives
+// reconfiguration.
+// ------------------------------------------------------------------------------------------------
+fn transact_op_cfg(db: &mut RefDB, c: &OpCase, how: &str) -> Result<ResultAndState, EVMError<String>> {
+    let mut env = make_env(c.spec, &c.block, &c.tx.tx);
+    env.tx.optimism.source_hash = None;
+    env.tx.optimism.mint = None;
+    env.tx.optimism.is_system_transaction = None;
+    env.tx.optimism.enveloped_tx = Some(Bytes::copy_from_slice(&c.tx.enveloped));
+    match how {
+        "enabled" => Evm::builder().with_db(db).with_spec_id(c.spec).with_env(env).optimism().build().transact(),
+        "cfg-flag" => {
+            env.cfg.disable_beneficiary_reward = true;
+            Evm::builder().with_db(db).with_spec_id(c.spec).with_env(env).optimism().build().transact()
+        }
+        "handler-flag" => {
+            let ctx = revm::Context::new(revm::EvmContext::new_with_env(db, env), ());
+            let mut evm = Evm::new(ctx, revm::Handler::optimism_with_spec(c.spec, false));
+            evm.transact()
+        }
+        "handler-flag+modify_spec_id" => {
+            let ctx = revm::Context::new(revm::EvmContext::new_with_env(db, env), ());
+            // start in another Optimism fork and switch to the case's fork
+            let other = if c.spec == SpecId::BEDROCK { SpecId::REGOLITH } else { SpecId::BEDROCK };
+            let mut evm = Evm::new(ctx, revm::Handler::optimism_with_spec(other, false));
+            evm.modify_spec_id(c.spec);
+            evm.transact()
+        }
+        _ => {
+            let ctx = revm::Context::new(revm::EvmContext::new_with_env(db, env), ());
+            let evm = Evm::new(ctx, revm::Handler::optimism_with_spec(c.spec, false));
+            let mut evm = evm.modify().append_handler_register(|_h| {}).build();
+            evm.transact()
+        }
+    }
+}
+
+pub fn run_c22_clause(ctx: &Ctx) -> i32 {
+    let mut rep = Report::new();
+    let replay_case: Option<(OpCase, String)> = ctx.replay.as_ref().map(|path| {
+        let v: Value = serde_json::from_str(&std::fs::read_to_string(path).expect("replay")).expect("json");
+        (OpCase::from_json(&v["case"]["case"]), v["case"]["how"].as_str().unwrap_or("handler-flag").to_string())
+    });
+    let n = if replay_case.is_some() { 1 } else { ctx.n(8_000, 600_000) };
+    let nsh = if replay_case.is_some() { 1 } else { 64 };
+    let rc = &replay_case;
+    let r = par_shards(ctx, nsh, |_si, rng, rep| {
+        for _ in 0..(n / nsh as u64).max(1) {
+            let (mut c, how): (OpCase, String) = match rc {
+                Some((c, h)) => (OpCase::from_json(&c.to_json()), h.clone()),
+                None => (gen_case(rng), rng.pick(&["cfg-flag", "handler-flag", "handler-flag+modify_spec_id", "handler-flag+append-register"]).to_string()),
+            };
+            c.tx.deposit = false;
+            c.tx.mint = None;
+            c.tx.system = None;
+            if c.tx.tx.gas_price.is_zero() {
+                c.tx.tx.gas_price = U256::from(c.block.basefee + 3);
+            }
+            rep.eval();
+            let cj = || json!({"case": c.to_json(), "how": how});
+            let mut db_on = RefDB::new(c.world.clone(), c.spec);
+            let mut db_off = RefDB::new(c.world.clone(), c.spec);
+            let on = guarded(|| transact_op_cfg(&mut db_on, &c, "enabled"));
+            let off = guarded(|| transact_op_cfg(&mut db_off, &c, &how));
+            let (on, off) = match (on, off) {
+                (Ok(a), Ok(b)) => (a, b),
+                (Err(p), _) | (_, Err(p)) => {
+                    report_panic(rep, "C22", &p, cj());
+                    continue;
+                }
+            };
+            rep.cell("op_clause_variants", &how);
+            let (Ok(on), Ok(off)) = (on, off) else {
+                rep.count("op_clause_rejected_transactions");
+                continue;
+            };
+            rep.nontrivial(hash64(c.to_json().to_string().as_bytes()));
+            rep.count("op_clause_executed_pairs");
+            let fork = op_name(c.spec);
+            if format!("{:?}", on.result) != format!("{:?}", off.result) {
+                rep.violation(format!("C22/optimism/result-differs/{how}/{fork}"), "ExecutionResult differs between rewards enabled and disabled".to_string(), cj());
+                continue;
+            }
+            db_on.commit(on.state);
+            db_off.commit(off.state);
+            let parties = [c.block.coinbase, L1_FEE_RECIPIENT, BASE_FEE_RECIPIENT, OPERATOR_FEE_RECIPIENT];
+            let named = parties.iter().any(|a| code_mentions(&c.world, a) || c.tx.tx.data.windows(20).any(|w| w == a.as_slice())) || parties.contains(&c.tx.tx.caller) || c.tx.tx.to.is_some_and(|t| parties.contains(&t));
+            for (a, name) in parties.iter().zip(["beneficiary", "l1-fee-vault", "base-fee-vault", "operator-fee-vault"]) {
+                let pre = c.world.accounts.get(a).map(|x| x.balance).unwrap_or_default();
+                let post = db_off.world.accounts.get(a).map(|x| x.balance).unwrap_or_default();
+                if !named && post != pre {
+                    rep.violation(format!("C22/optimism/{name}-paid-with-rewards-disabled/{how}/{fork}"), format!("{name} {pre} -> {post} although rewards are disabled ({how})"), cj());
+                }
+            }
+            // every other effect identical: all accounts except the four fee parties
+            let mut w_on = db_on.world.clone();
+            let mut w_off = db_off.world.clone();
+            for a in parties.iter() {
+                w_on.accounts.remove(a);
+                w_off.accounts.remove(a);
+            }
+            if !named {
+                if let Some(d) = world_diff(&w_on, &w_off) {
+                    rep.violation(format!("C22/optimism/other-effects-differ/{how}/{fork}"), format!("state apart from the fee parties differs: {d}"), cj());
+                }
+            }
+        }
+    });
+    rep.merge(r);
+    if replay_case.is_none() {
+        let have = rep.counter("op_clause_executed_pairs");
+        rep.floor("executed enabled/disabled pairs (Optimism)", have, 1000);
+    } else {
+        println!("replayed: {} violation(s)", rep.violations.len());
+    }
+    finish(ctx, rep, Finish {
+        level: "exploration",
+        rule: "Optimism clause of C22 (lane op): generated regular Optimism transactions (C33's generator, Bedrock..Isthmus, generated L1 fee parameters) run with rewards enabled and with rewards disabled through (a) CfgEnv::disable_beneficiary_reward, (b) Handler::optimism_with_spec(spec,false), (c) b + modify_spec_id from another fork, (d) b + modify().append_handler_register().build(): the ExecutionResult must be equal, the beneficiary and the L1-fee, base-fee and operator-fee vaults must keep their balances in the disabled run, and every other account must end equal in both runs. Non-trivial = both runs executed; distinct by case.".into(),
+        assumptions: vec!["programs cannot name the fee parties".into()],
+    })
+}
